@@ -177,6 +177,19 @@ func (e *Eng) evalSpec(st *State, x *SExpr, env map[string]*Val, old map[string]
 					t = a.Elems[0].T
 				}
 				return scalar(fmt.Sprintf("(or (= %s 0) (islocal %s))", t, t), "Bool", nil)
+			case "implements":
+				a := e.evalSpec(st, x.Args[1], env, old)
+				tn, _ := strconv.Unquote(x.Args[2].Name)
+				return scalar(e.implTerm(a, e.resolveTypeName(tn)), "Bool", nil)
+			case "deref":
+				a := e.evalSpec(st, x.Args[1], env, old)
+				if a.Go != nil {
+					if pt, ok := a.Go.Underlying().(*types.Pointer); ok {
+						name, _ := e.heapName("P", pt.Elem())
+						return e.heapReadComp(st, name, a.T, pt.Elem())
+					}
+				}
+				panic("spec: deref of non-pointer")
 			case "isZero":
 				a := e.evalSpec(st, x.Args[1], env, old)
 				if a.Sort == "Int" && a.Go != nil {
